@@ -296,6 +296,18 @@ impl BucketRef {
     }
 }
 
+#[cfg(lasso_verif)]
+impl BucketRef {
+    /// Verification hook (read-only): `(address of the data, capacity, reserved length)` of this block
+    pub(crate) fn verif_raw(&self) -> (usize, usize, usize) {
+        (
+            unsafe { self.slice_mut(0) } as usize,
+            self.capacity().get(),
+            self.length().load(Ordering::SeqCst),
+        )
+    }
+}
+
 #[repr(C)]
 pub(super) struct AtomicBucket {
     /// The next bucket in the list, will be null if this is the last bucket
